@@ -136,6 +136,92 @@ fn world(mode: Mode, threads: usize) -> Result<World, String> {
     }
 }
 
+/// Client ids and version ids are both arbitrary 128-bit values chosen by different parties, so
+/// the two id spaces may overlap: a client whose id *is* one of another client's version ids (or
+/// its snapshot's version id), and a client whose chain starts at another client's *client id*.
+/// Whatever such a client does, the first client's chain and snapshot are served as before, and the
+/// newcomer is served what it uploaded.
+pub fn id_space_overlap_part(cov: &mut Cov) -> Option<Found> {
+    use crate::subject::Kind;
+    for kind in [Kind::MEM_LIB, Kind::MEM_HTTP, Kind::SQL_LIB, Kind::SQL_HTTP] {
+        let mut subj = Subject::new(kind, Config::default()).ok()?;
+        let fail = |m: String| Some(Found { property: "C09".into(), signature: format!("C09:id-spaces {}", m.split_whitespace().take(6).collect::<Vec<_>>().join(" ")), msg: format!("[{}] {m}", kind.name()), replay: json!({"origin": "id-space-overlap", "case": 0}) });
+        let a = Uuid::new_v4();
+        let mut a_chain: Vec<(Uuid, Uuid, Vec<u8>)> = vec![];
+        let mut p = Uuid::nil();
+        for i in 0..3u8 {
+            let data = format!("segment {i} of A").into_bytes();
+            match subj.exec(a, &Req::AddVersion { parent: p, data: data.clone() }) {
+                Resp::AddOk { vid, .. } => {
+                    a_chain.push((vid, p, data));
+                    p = vid;
+                }
+                _ => return None,
+            }
+        }
+        let a_snap = (a_chain[1].0, b"snapshot of A".to_vec());
+        if !matches!(subj.exec(a, &Req::AddSnapshot { vid: a_snap.0, data: a_snap.1.clone() }), Resp::SnapOk) {
+            return None;
+        }
+        let read_a = |subj: &mut Subject| -> Vec<Resp> {
+            let mut v: Vec<Resp> = a_chain.iter().map(|(_, par, _)| subj.exec(a, &Req::GetChild { parent: *par })).collect();
+            v.push(subj.exec(a, &Req::GetChild { parent: a_chain[2].0 }));
+            v.push(subj.exec(a, &Req::GetSnapshot));
+            v
+        };
+        let before = read_a(&mut subj);
+        for (i, (vid, par, data)) in a_chain.iter().enumerate() {
+            if !matches!(&before[i], Resp::Found { vid: v, parent: q, data: d } if v == vid && q == par && d == data) {
+                return fail(format!("client A's version #{i} is served as {} right after it was accepted", before[i].short()));
+            }
+        }
+        // newcomers: id = A's first version id, A's snapshot version id, A's latest version id;
+        // and one whose chain starts at A's client id
+        let newcomers: Vec<(Uuid, Uuid, &str)> = vec![(a_chain[0].0, Uuid::nil(), "a client whose id is A's first version id"), (a_chain[1].0, Uuid::nil(), "a client whose id is the version id of A's snapshot"), (a_chain[2].0, a_chain[0].0, "a client whose id is A's latest version id and whose chain starts at A's first version id"), (Uuid::new_v4(), a, "a client whose chain starts at A's client id")];
+        for (b, base, what) in newcomers {
+            // (client A goes on between the newcomers: the reference is what it is served now)
+            let before = read_a(&mut subj);
+            let seg = format!("segment of {b}").into_bytes();
+            let snap = format!("snapshot of {b}").into_bytes();
+            let Resp::AddOk { vid: bv, .. } = subj.exec(b, &Req::AddVersion { parent: base, data: seg.clone() }) else { return fail(format!("{what} cannot add its first version")) };
+            let r = subj.exec(b, &Req::AddSnapshot { vid: bv, data: snap.clone() });
+            if !matches!(r, Resp::SnapOk) {
+                return fail(format!("{what}: add-snapshot answered {}", r.short()));
+            }
+            cov.evaluations += 1;
+            cov.hit(format!("id-space-overlap|{}|{}", kind.name(), what.split(" is ").last().unwrap_or(what).replace(' ', "-")));
+            let after = read_a(&mut subj);
+            if after != before {
+                let i = (0..before.len()).find(|i| after[*i] != before[*i]).unwrap_or(0);
+                return fail(format!("after {what} stored a version and a snapshot, client A's read #{i} ({}) is answered {} (before: {})", if i < 3 { "a version of its chain" } else if i == 3 { "the child of its latest" } else { "its snapshot" }, after[i].short(), before[i].short()));
+            }
+            match subj.exec(b, &Req::GetChild { parent: base }) {
+                Resp::Found { vid, data, .. } if vid == bv && data == seg => {}
+                o => return fail(format!("{what}: its own first version is served as {}", o.short())),
+            }
+            match subj.exec(b, &Req::GetSnapshot) {
+                Resp::Snap { vid, data } if vid == bv && data == snap => {}
+                o => return fail(format!("{what}: its own snapshot is served as {}", o.short())),
+            }
+            // A goes on: a further version and a replaced snapshot must not disturb the newcomer
+            let more = format!("a further segment of A after {b}").into_bytes();
+            if let Resp::AddOk { vid, .. } = subj.exec(a, &Req::AddVersion { parent: p, data: more.clone() }) {
+                let _ = subj.exec(a, &Req::AddSnapshot { vid, data: b"a newer snapshot of A".to_vec() });
+                p = vid;
+            }
+            match subj.exec(b, &Req::GetSnapshot) {
+                Resp::Snap { vid, data } if vid == bv && data == snap => {}
+                o => return fail(format!("{what}: after client A stored another version and snapshot, the newcomer's snapshot is served as {}", o.short())),
+            }
+            match subj.exec(b, &Req::GetChild { parent: base }) {
+                Resp::Found { vid, data, .. } if vid == bv && data == seg => {}
+                o => return fail(format!("{what}: after client A stored another version and snapshot, the newcomer's version is served as {}", o.short())),
+            }
+        }
+    }
+    None
+}
+
 pub fn shard_run(tier: &str, seed: u64, shard: Shard) -> ShardOut {
     let thorough = tier == "thorough";
     let mut out = ShardOut::default();
